@@ -23,7 +23,7 @@ Lemma t_reachable_inv (P : tstate -> Prop) limit thrs :
 Proof. intros H0 Hs s (sched & fuel & tr & ->). apply t_run_inv; assumption. Qed.
 
 (* ---------- projections of the logs ---------- *)
-Definition o_items (c : nat) (o : outcome) : list (nat * titem) := match o with OItem it => [(c, it)] | OExc _ => [] end.
+Definition o_items (c : nat) (o : outcome) : list (nat * titem) := match o with OItem it => [(c, it)] | _ => [] end.
 Definition ritems (l : list (nat * outcome)) : list (nat * titem) := flat_map (fun x => o_items (fst x) (snd x)) l.
 Definition iitems (l : list (nat * (nat * outcome))) : list (nat * titem) :=
   flat_map (fun x => o_items (fst (snd x)) (snd (snd x))) l.
@@ -44,20 +44,27 @@ Proof.
 Qed.
 
 (* ---------- conservation ---------- *)
+Require Import Sorted.
 Definition of_p (p : nat) (it : titem) : bool := Nat.eqb (it_p it) p.
 Definition p_items (p : nat) (vals : list Z) (k : nat) : list titem := map (fun j => mkIt p j (nth j vals 0)) (seq 0 k).
 Definition expected_plog (p : nat) (t : option thr) : list titem :=
   match t with Some (TProd vals k _ _ _) => p_items p vals k | _ => [] end.
-
 Definition limit_ok (l : option Z) : Prop := match l with Some n => 1 <= n | None => True end.
+
+(* the items that are matched, queued or held by blocked pushes, in that order *)
+Definition t_chain (s : tstate) : list titem := map snd (t_alog s) ++ t_items s ++ map fst (t_blocked s).
+Definition bound (t : option thr) : nat := match t with Some (TProd _ k _ _ _) => k | _ => 0%nat end.
+Definition psorted (p : nat) (t : option thr) (C : list titem) : Prop :=
+  StronglySorted lt (map it_k (filter (of_p p) C)) /\ Forall (fun j => (j < bound t)%nat) (map it_k (filter (of_p p) C)).
 
 Record tcons (s : tstate) : Prop := mkTcons {
   tc_limit : limit_ok (t_limit s);
   tc_full : t_blocked s <> [] -> full s = true;
   tc_wait : t_waiters s <> [] -> t_items s = [] /\ t_blocked s = [];
-  tc_plog : t_plog s = map snd (t_alog s) ++ t_items s ++ map fst (t_blocked s);
+  tc_plog : Permutation (t_plog s) (t_chain s ++ t_wlog s ++ t_dlog s);
   tc_perm : Permutation (t_alog s) (ritems (t_rlog s) ++ iitems (t_infl s));
-  tc_prod : forall p, filter (of_p p) (t_plog s) = expected_plog p (nth_error (t_thr s) p)
+  tc_prod : forall p, filter (of_p p) (t_plog s) = expected_plog p (nth_error (t_thr s) p);
+  tc_sorted : forall p, psorted p (nth_error (t_thr s) p) (t_chain s)
 }.
 
 Lemma nth_error_set_same {A} (l : list A) i x y : nth_error l i = Some y -> nth_error (set_nth l i x) i = Some x.
@@ -90,78 +97,221 @@ Proof.
     rewrite app_nil_r. exact H.
 Qed.
 
-Ltac tfields := cbn [t_items t_waiters t_blocked t_limit t_infl t_cinfl t_rlog t_pdone t_alog t_plog t_thr fst snd] in *.
+(* sortedness toolkit *)
+Lemma SS_app_l {A} (R : A -> A -> Prop) a b : StronglySorted R (a ++ b) -> StronglySorted R a.
+Proof.
+  induction a as [|x a IH]; intros H; [constructor|]. cbn [app] in H. inversion H as [|? ? S F]; subst.
+  constructor; [apply IH; exact S|]. apply Forall_app in F. apply F.
+Qed.
+Lemma SS_app_r {A} (R : A -> A -> Prop) a b : StronglySorted R (a ++ b) -> StronglySorted R b.
+Proof. induction a as [|x a IH]; intros H; [exact H|]. cbn [app] in H. inversion H; subst. apply IH. assumption. Qed.
+Lemma SS_remove_mid {A} (R : A -> A -> Prop) a b d : StronglySorted R (a ++ b ++ d) -> StronglySorted R (a ++ d).
+Proof.
+  induction a as [|x a IH]; intros H; cbn [app] in *; [exact (SS_app_r _ _ _ H)|].
+  inversion H as [|? ? S F]; subst. constructor; [apply IH; exact S|].
+  apply Forall_app in F as [F1 F2]. apply Forall_app in F2 as [_ F3]. apply Forall_app. split; assumption.
+Qed.
+Lemma SS_snoc l x : StronglySorted lt l -> Forall (fun j => (j < x)%nat) l -> StronglySorted lt (l ++ [x]).
+Proof.
+  induction l as [|y l IH]; intros S F; cbn [app]; [constructor; constructor|].
+  inversion S as [|? ? S' F']; subst. inversion F as [|? ? Fy Fl]; subst.
+  constructor; [apply IH; assumption|]. apply Forall_app. split; [exact F'|constructor; [exact Fy|constructor]].
+Qed.
+
+Definition keys (p : nat) (C : list titem) : list nat := map it_k (filter (of_p p) C).
+Lemma keys_app p a b : keys p (a ++ b) = keys p a ++ keys p b.
+Proof. unfold keys. rewrite filter_app, map_app. reflexivity. Qed.
+
+Lemma keys_single p it : keys p [it] = if Nat.eqb (it_p it) p then [it_k it] else [].
+Proof. unfold keys, of_p. cbn [filter]. destruct (Nat.eqb (it_p it) p); reflexivity. Qed.
+
+(* effect of a step on the chain: unchanged, one item of thread i appended, or a contiguous block removed *)
+Lemma sorted_after s i t t' C' :
+  nth_error (t_thr s) i = Some t ->
+  (forall p, psorted p (nth_error (t_thr s) p) (t_chain s)) ->
+  (C' = t_chain s /\ bound (Some t') = bound (Some t)) \/
+  (exists vals k pc nb rets pc' nb' rets', t = TProd vals k pc nb rets /\ t' = TProd vals (S k) pc' nb' rets' /\
+                                       C' = t_chain s ++ [mkIt i k (nth k vals 0)]) \/
+  (exists a b d, t_chain s = a ++ b ++ d /\ C' = a ++ d /\ bound (Some t') = bound (Some t)) ->
+  forall p, psorted p (nth_error (set_nth (t_thr s) i t') p) C'.
+Proof.
+  intros T H C p. unfold psorted in *. fold (keys p C'). specialize (H p). fold (keys p (t_chain s)) in H.
+  assert (bound (nth_error (set_nth (t_thr s) i t') p) = if Nat.eqb i p then bound (Some t') else bound (nth_error (t_thr s) p)) as BE.
+  { destruct (Nat.eqb i p) eqn:E.
+    - apply Nat.eqb_eq in E. subst p. rewrite (nth_error_set_same _ _ _ _ T). reflexivity.
+    - apply Nat.eqb_neq in E. rewrite nth_error_set_nth_other by exact E. reflexivity. }
+  rewrite BE. clear BE.
+  destruct C as [[-> E]|[(vals & k & pc & nb & rets & pc' & nb' & rets' & -> & -> & ->)|(a & b & d & EC & -> & E)]].
+  - destruct (Nat.eqb i p) eqn:EQ; [|exact H]. apply Nat.eqb_eq in EQ. subst p. rewrite E. rewrite T in H. exact H.
+  - rewrite keys_app, keys_single. cbn [it_p it_k].
+    destruct (Nat.eqb i p) eqn:EQ.
+    + apply Nat.eqb_eq in EQ. subst p. rewrite T in H. cbn [bound] in *. destruct H as [S F]. split.
+      * apply SS_snoc; assumption.
+      * apply Forall_app. split; [|constructor; [lia|constructor]]. eapply Forall_impl; [|exact F]. cbn. intros; lia.
+    + rewrite app_nil_r. exact H.
+  - rewrite EC in H. rewrite !keys_app in *. destruct H as [S F].
+    assert (StronglySorted lt (keys p a ++ keys p d) /\ Forall (fun j => (j < bound (nth_error (t_thr s) p))%nat) (keys p a ++ keys p d)) as [S' F'].
+    { split; [exact (SS_remove_mid _ _ _ _ S)|]. apply Forall_app in F as [F1 F2]. apply Forall_app in F2 as [_ F3].
+      apply Forall_app. split; assumption. }
+    destruct (Nat.eqb i p) eqn:EQ; [|split; assumption]. apply Nat.eqb_eq in EQ. subst p. rewrite E. rewrite T in F'. split; assumption.
+Qed.
+
+Ltac tfields := cbn [t_items t_waiters t_blocked t_limit t_dead t_infl t_cinfl t_rlog t_pdone t_alog t_plog t_wlog t_dlog t_thr fst snd] in *.
 
 Lemma zlen_snoc_cons {A} (x y : A) t : zlen (t ++ [y]) = zlen (x :: t).
 Proof. unfold zlen. rewrite app_length. cbn [length]. lia. Qed.
 
+Lemma perm_snoc_insert {A} (x : A) l a b : Permutation l (a ++ b) -> Permutation (l ++ [x]) (a ++ x :: b).
+Proof. intros H. etransitivity; [symmetry; apply Permutation_cons_append|]. apply Permutation_cons_app. exact H. Qed.
+Lemma perm_ins1 {A} (x : A) l a r : Permutation l (a ++ r) -> Permutation (l ++ [x]) (a ++ [x] ++ r).
+Proof. intros H. cbn [app]. apply perm_snoc_insert. exact H. Qed.
+Lemma perm_ins2 {A} (x : A) l a b r : Permutation l (a ++ b ++ r) -> Permutation (l ++ [x]) (a ++ b ++ [x] ++ r).
+Proof. intros H. rewrite app_assoc in *. apply perm_ins1. exact H. Qed.
+Lemma perm_ins3 {A} (x : A) l a b c r : Permutation l (a ++ b ++ c ++ r) -> Permutation (l ++ [x]) (a ++ b ++ c ++ [x] ++ r).
+Proof. intros H. rewrite app_assoc in *. apply perm_ins2. exact H. Qed.
+
+Lemma ritems_cancel (w : list nat) : ritems (map (fun c => (c, OCancel)) w) = [].
+Proof. induction w as [|c w IH]; [reflexivity|]. cbn [map ritems flat_map fst snd o_items app]. exact IH. Qed.
+
+Lemma chain_eq s : t_chain s = map snd (t_alog s) ++ t_items s ++ map fst (t_blocked s).
+Proof. reflexivity. Qed.
+
+(* steps that change nothing but thread i's own entry (same number of pushes) *)
+Ltac thr_only T J5 J6 :=
+  first [ apply (expected_after _ _ _ _ _ T J5); left; split; reflexivity
+        | apply (sorted_after _ _ _ _ _ T J6); left; split; [|reflexivity]; unfold t_chain;
+          try (match goal with H : t_blocked _ = _ |- _ => rewrite H end);
+          try (match goal with H : t_items _ = _ |- _ => rewrite H end); reflexivity ].
+
+Lemma tcons_resolve_pop s i : tcons s -> tcons (resolve_pop s i).
+Proof.
+  intros [L B1 B2 J1 J2 J5 J6]. unfold resolve_pop. destruct (afind i (t_infl s)) as [[c o]|] eqn:AF; [|split; assumption].
+  split; unfold t_chain in *; tfields; try assumption.
+  rewrite ritems_app. cbn [ritems flat_map fst snd app]. rewrite app_nil_r. rewrite J2.
+  rewrite <- app_assoc. apply Permutation_app_head. apply iitems_remove. exact AF.
+Qed.
+Lemma tcons_resolve_push s i : tcons s -> tcons (resolve_push s i).
+Proof.
+  intros [L B1 B2 J1 J2 J5 J6]. unfold resolve_push. destruct (afind i (t_cinfl s)) as [[p code]|]; [|split; assumption].
+  split; unfold t_chain in *; tfields; assumption.
+Qed.
+Lemma resolve_pop_thr s i : t_thr (resolve_pop s i) = t_thr s.
+Proof. unfold resolve_pop. destruct (afind i (t_infl s)) as [[c o]|]; reflexivity. Qed.
+Lemma resolve_push_thr s i : t_thr (resolve_push s i) = t_thr s.
+Proof. unfold resolve_push. destruct (afind i (t_cinfl s)) as [[c o]|]; reflexivity. Qed.
+
+(* replacing thread i's entry by one with the same push count *)
+Lemma tcons_with_thr s i t t' : tcons s -> nth_error (t_thr s) i = Some t ->
+  expected_plog i (Some t') = expected_plog i (Some t) -> bound (Some t') = bound (Some t) ->
+  tcons (with_thr s (set_nth (t_thr s) i t')).
+Proof.
+  intros [L B1 B2 J1 J2 J5 J6] T E1 E2. split; unfold with_thr, t_chain in *; tfields; try assumption.
+  - apply (expected_after _ _ _ _ _ T J5). left. split; [reflexivity|exact E1].
+  - apply (sorted_after _ _ _ _ _ T J6). left. split; [reflexivity|exact E2].
+Qed.
+
 Lemma tcons_step s i : tcons s -> tcons (fst (tstep s i)).
 Proof.
-  intros [L B1 B2 J1 J2 J5]. unfold tstep.
-  destruct (nth_error (t_thr s) i) as [[vals k [| |b] nb rets | n issued [| |] | n e [|] rets]|] eqn:T; [..|split; assumption].
+  intros O. pose proof O as [L B1 B2 J1 J2 J5 J6]. unfold tstep. unfold t_chain in J1. rewrite <- ?app_assoc in J1.
+  destruct (nth_error (t_thr s) i) as [[vals k [|rb|b] nb rets | n issued [| |] | n e [|] rets | n e [|] rets | n [|] rets | d]|] eqn:T;
+    [..|exact O].
   - (* producer, critical section *)
     destruct (t_waiters s) as [|c w] eqn:W; [destruct (full s) eqn:F|]; cbn [fst].
     + (* blocks *)
-      split; tfields; try assumption; try (intros ?HH; congruence).
+      split; unfold t_chain in *; tfields; try assumption; try (intros ?HH; congruence); try (rewrite <- ?app_assoc; exact J1).
       * intros _. unfold full in *. tfields. exact F.
-      * rewrite J1, (map_app fst). cbn [map fst]. rewrite <- !app_assoc. reflexivity.
+      * rewrite (map_app fst). cbn [map fst]. rewrite <- !app_assoc. apply perm_ins3. exact J1.
       * apply (expected_after s i _ _ _ T J5). right. repeat eexists.
+      * apply (sorted_after s i _ _ _ T J6). right; left. do 8 eexists. split; [reflexivity|]. split; [reflexivity|].
+        unfold t_chain. rewrite (map_app fst). cbn [map fst]. rewrite <- !app_assoc. reflexivity.
     + (* enqueues: nobody is blocked *)
       assert (t_blocked s = []) as EB by (destruct (t_blocked s); [reflexivity|]; exfalso; assert (false = true) by (apply B1; discriminate); discriminate).
-      split; tfields; try assumption; try (intros ?HH; congruence).
-      * rewrite J1, EB. cbn [map]. rewrite !app_nil_r. rewrite app_assoc. reflexivity.
+      split; unfold t_chain in *; tfields; try assumption; try (intros ?HH; congruence); try (rewrite <- ?app_assoc; exact J1).
+      * rewrite EB in *. cbn [map app] in *. rewrite <- !app_assoc. apply perm_ins2. exact J1.
       * apply (expected_after s i _ _ _ T J5). right. repeat eexists.
+      * apply (sorted_after s i _ _ _ T J6). right; left. do 8 eexists. split; [reflexivity|]. split; [reflexivity|].
+        unfold t_chain. rewrite EB. cbn [map]. rewrite !app_nil_r. rewrite <- !app_assoc. reflexivity.
     + (* hand-over *)
       destruct B2 as [EI EB]; [discriminate|].
-      split; tfields; try assumption; try (intros ?HH; congruence).
+      split; unfold t_chain in *; tfields; try assumption; try (intros ?HH; congruence); try (rewrite <- ?app_assoc; exact J1).
       * intros H. split; assumption.
-      * rewrite J1, EI, EB. cbn [map app]. rewrite !app_nil_r. rewrite map_app. reflexivity.
+      * rewrite EI, EB in *. cbn [map app] in *. rewrite (map_app snd). cbn [map snd]. rewrite <- !app_assoc. apply perm_ins1. exact J1.
       * rewrite iitems_app. cbn [iitems flat_map fst snd o_items app]. rewrite app_assoc. apply Permutation_app_tail. exact J2.
       * apply (expected_after s i _ _ _ T J5). right. repeat eexists.
-  - (* producer, resolution *)
-    destruct (afind i (t_infl s)) as [[c o]|] eqn:AF; cbn [fst]; split; tfields; try assumption; try (intros ?HH; congruence);
-      try (apply (expected_after s i _ _ _ T J5); left; split; reflexivity).
-    rewrite ritems_app. cbn [ritems flat_map fst snd app]. rewrite app_nil_r. rewrite J2.
-    rewrite <- app_assoc. apply Permutation_app_head. apply iitems_remove. exact AF.
+      * apply (sorted_after s i _ _ _ T J6). right; left. do 8 eexists. split; [reflexivity|]. split; [reflexivity|].
+        unfold t_chain. rewrite EI, EB. cbn [map app]. rewrite !app_nil_r. rewrite (map_app snd). reflexivity.
+  - (* producer, after the unlock: resolution of the taken promise, if any *)
+    cbn [fst]. pose proof (tcons_resolve_pop s i O) as O1. rewrite <- (resolve_pop_thr s i) in T.
+    destruct rb; apply (tcons_with_thr _ i _ _ O1 T); reflexivity.
   - (* producer, wake *)
-    cbn [fst]; split; tfields; try assumption; try (intros ?HH; congruence). apply (expected_after s i _ _ _ T J5); left; split; reflexivity.
+    cbn [fst]. apply (tcons_with_thr s i _ _ O T); reflexivity.
   - (* consumer, critical section *)
     destruct (t_items s) as [|it t] eqn:I; [|destruct (t_blocked s) as [|[y p] b] eqn:B]; cbn [fst].
     + assert (t_blocked s = []) as EB.
       { destruct (t_blocked s) eqn:B; [reflexivity|]. exfalso. assert (full s = true) as F by (apply B1; discriminate).
         unfold full in F. rewrite I in F. destruct (t_limit s); [|discriminate]. cbn in L. cbn in F. lia. }
-      split; tfields; try assumption; try (intros ?HH; congruence).
+      split; unfold t_chain in *; tfields; try assumption; try (intros ?HH; congruence); try (rewrite <- ?app_assoc; exact J1).
       * intros _. split; [reflexivity|exact EB].
-      * apply (expected_after s i _ _ _ T J5); left; split; reflexivity.
+      * thr_only T J5 J6.
+      * apply (sorted_after s i _ _ _ T J6). left. split; [|reflexivity]. unfold t_chain. rewrite I. reflexivity.
     + assert (t_waiters s = []) as EW by (destruct (t_waiters s); [reflexivity|]; destruct B2 as [X _]; [discriminate|discriminate]).
-      split; tfields; try assumption; try (intros ?HH; congruence).
-      * rewrite J1. cbn [map]. rewrite map_app. cbn [map snd app]. rewrite <- app_assoc. reflexivity.
+      split; unfold t_chain in *; tfields; try assumption; try (intros ?HH; congruence); try (rewrite <- ?app_assoc; exact J1).
+      * rewrite (map_app snd). cbn [map snd app] in *. rewrite <- !app_assoc. exact J1.
       * rewrite ritems_app. cbn [ritems flat_map fst snd o_items app]. rewrite <- app_assoc.
         rewrite (Permutation_app_comm [(i, it)]). rewrite app_assoc. apply Permutation_app_tail. exact J2.
-      * apply (expected_after s i _ _ _ T J5); left; split; reflexivity.
+      * thr_only T J5 J6.
+      * apply (sorted_after s i _ _ _ T J6). left. split; [|reflexivity]. unfold t_chain. rewrite I, B.
+        rewrite (map_app snd). cbn [map snd app]. rewrite <- !app_assoc. reflexivity.
     + assert (t_waiters s = []) as EW by (destruct (t_waiters s); [reflexivity|]; destruct B2 as [X _]; [discriminate|discriminate]).
-      split; tfields; try assumption; try (intros ?HH; congruence).
+      split; unfold t_chain in *; tfields; try assumption; try (intros ?HH; congruence); try (rewrite <- ?app_assoc; exact J1).
       * intros _. assert (full s = true) as F by (apply B1; discriminate). unfold full in *. tfields. rewrite I in F.
         destruct (t_limit s); [|discriminate]. rewrite (zlen_snoc_cons it y t). exact F.
-      * rewrite J1. cbn [map fst snd]. rewrite map_app. cbn [map snd app]. rewrite <- !app_assoc. reflexivity.
+      * rewrite (map_app snd). cbn [map snd fst app] in *. rewrite <- !app_assoc. cbn [app]. exact J1.
       * rewrite ritems_app. cbn [ritems flat_map fst snd o_items app]. rewrite <- app_assoc.
         rewrite (Permutation_app_comm [(i, it)]). rewrite app_assoc. apply Permutation_app_tail. exact J2.
-      * apply (expected_after s i _ _ _ T J5); left; split; reflexivity.
+      * thr_only T J5 J6.
+      * apply (sorted_after s i _ _ _ T J6). left. split; [|reflexivity]. unfold t_chain. rewrite I, B.
+        rewrite (map_app snd). cbn [map snd fst app]. rewrite <- !app_assoc. reflexivity.
   - (* consumer, resolution of the blocked push *)
-    destruct (afind i (t_cinfl s)); cbn [fst]; split; tfields; try assumption; try (intros ?HH; congruence);
-      apply (expected_after s i _ _ _ T J5); left; split; reflexivity.
+    cbn [fst]. pose proof (tcons_resolve_push s i O) as O1. rewrite <- (resolve_push_thr s i) in T.
+    apply (tcons_with_thr _ i _ _ O1 T); reflexivity.
   - (* consumer, wake *)
-    cbn [fst]; split; tfields; try assumption; try (intros ?HH; congruence). apply (expected_after s i _ _ _ T J5); left; split; reflexivity.
+    cbn [fst]. apply (tcons_with_thr s i _ _ O T); reflexivity.
   - (* unblock_pop, critical section *)
-    destruct (t_waiters s) as [|c w] eqn:W; cbn [fst]; split; tfields; try assumption; try (intros ?HH; congruence);
-      try (apply (expected_after s i _ _ _ T J5); left; split; reflexivity).
-    + intros _. apply B2. discriminate.
-    + rewrite iitems_app. cbn [iitems flat_map fst snd o_items app]. rewrite !app_nil_r. exact J2.
+    destruct (t_waiters s) as [|c w] eqn:W; cbn [fst].
+    + split; unfold t_chain in *; tfields; try assumption; try (intros ?HH; congruence); try (rewrite <- ?app_assoc; exact J1); thr_only T J5 J6.
+    + split; unfold t_chain in *; tfields; try assumption; try (intros ?HH; congruence); try (rewrite <- ?app_assoc; exact J1); try thr_only T J5 J6.
+      * intros _. apply B2. discriminate.
+      * rewrite iitems_app. cbn [iitems flat_map fst snd o_items app]. rewrite !app_nil_r. exact J2.
   - (* unblock_pop, resolution *)
-    destruct (afind i (t_infl s)) as [[c o]|] eqn:AF; cbn [fst]; split; tfields; try assumption; try (intros ?HH; congruence);
-      try (apply (expected_after s i _ _ _ T J5); left; split; reflexivity).
-    rewrite ritems_app. cbn [ritems flat_map fst snd app]. rewrite app_nil_r. rewrite J2.
-    rewrite <- app_assoc. apply Permutation_app_head. apply iitems_remove. exact AF.
+    cbn [fst]. pose proof (tcons_resolve_pop s i O) as O1. rewrite <- (resolve_pop_thr s i) in T.
+    apply (tcons_with_thr _ i _ _ O1 T); reflexivity.
+  - (* unblock_push, critical section *)
+    destruct (t_blocked s) as [|[y p] b] eqn:B; cbn [fst].
+    + split; unfold t_chain in *; tfields; try assumption; try (intros ?HH; congruence); try (rewrite <- ?app_assoc; exact J1); thr_only T J5 J6.
+    + split; unfold t_chain in *; tfields; try assumption; try (intros ?HH; congruence); try (rewrite <- ?app_assoc; exact J1); try thr_only T J5 J6.
+      * intros _. apply B1. discriminate.
+      * intros H. destruct (B2 H) as [_ X]. discriminate.
+      * etransitivity; [exact J1|]. cbn [map fst app]. rewrite <- !app_assoc. do 2 apply Permutation_app_head. cbn [app].
+        rewrite (app_assoc (map fst b) (t_wlog s)). rewrite (app_assoc (map fst b) (t_wlog s) (y :: _)).
+        apply Permutation_cons_app. reflexivity.
+      * apply (sorted_after s i _ _ _ T J6). right; right. exists (map snd (t_alog s) ++ t_items s), [y], (map fst b).
+        split; [unfold t_chain; rewrite B; cbn [map fst app]; rewrite <- app_assoc; reflexivity|].
+        split; [rewrite <- app_assoc; reflexivity|reflexivity].
+  - (* unblock_push, resolution *)
+    cbn [fst]. pose proof (tcons_resolve_push s i O) as O1. rewrite <- (resolve_push_thr s i) in T.
+    apply (tcons_with_thr _ i _ _ O1 T); reflexivity.
+  - (* size *)
+    cbn [fst]. split; unfold t_chain in *; tfields; try assumption; try (rewrite <- ?app_assoc; exact J1); thr_only T J5 J6.
+  - cbn [fst]. split; unfold t_chain in *; tfields; try assumption; try (rewrite <- ?app_assoc; exact J1); thr_only T J5 J6.
+  - (* destroy *)
+    cbn [fst]. split; unfold t_chain in *; tfields; try assumption; try (intros ?HH; congruence); try (rewrite <- ?app_assoc; exact J1); try thr_only T J5 J6.
+    + etransitivity; [exact J1|]. cbn [map app]. rewrite app_nil_r. apply Permutation_app_head.
+      rewrite (app_assoc (t_items s)). rewrite (app_assoc (t_wlog s)). apply Permutation_app_comm.
+    + rewrite ritems_app. rewrite ritems_cancel.
+      rewrite app_nil_r. exact J2.
+    + apply (sorted_after s i _ _ _ T J6). right; right. exists (map snd (t_alog s)), (t_items s ++ map fst (t_blocked s)), [].
+      split; [unfold t_chain; rewrite app_nil_r; reflexivity|]. split; [cbn [map]; rewrite !app_nil_r; reflexivity|reflexivity].
 Qed.
 
 (* ---------- initial states ---------- *)
@@ -170,9 +320,12 @@ Definition t_fresh (t : thr) : Prop :=
   | TProd _ k pc _ _ => k = 0%nat /\ pc = PIdle
   | TCons _ issued pc => issued = 0%nat /\ pc = CIdle
   | TUnb _ _ pc _ => pc = UIdle
+  | TUnbPush _ _ pc _ => pc = UIdle
+  | TSize _ pc _ => pc = UIdle
+  | TDestroy _ => True
   end.
 
-Lemma t_decode_fresh ops : Forall t_fresh (flat_map t_decode_thr ops).
+Lemma t_decode_fresh lim ops : Forall t_fresh (flat_map (t_decode_thr lim) ops).
 Proof.
   induction ops as [|l ops IH]; cbn [flat_map]; [constructor|]. apply Forall_app. split; [|exact IH].
   unfold t_decode_thr.
@@ -182,11 +335,12 @@ Qed.
 
 Lemma tcons_init limit thrs : limit_ok limit -> Forall t_fresh thrs -> tcons (t_init limit thrs).
 Proof.
-  intros L F. split; cbn [t_init t_items t_waiters t_blocked t_limit t_infl t_cinfl t_rlog t_pdone t_alog t_plog t_thr];
+  intros L F. split; unfold t_chain; cbn [t_init t_items t_waiters t_blocked t_limit t_infl t_cinfl t_rlog t_pdone t_alog t_plog t_wlog t_dlog t_thr map app];
     try assumption; try reflexivity; try (intros H; congruence).
-  intros p. cbn [filter]. destruct (nth_error thrs p) as [t|] eqn:E; [|reflexivity].
+  - intros p. cbn [filter]. destruct (nth_error thrs p) as [t|] eqn:E; [|reflexivity].
     apply nth_error_In in E. rewrite Forall_forall in F. specialize (F t E).
     destruct t; cbn [expected_plog]; try reflexivity. destruct F as [-> _]. reflexivity.
+  - intros p. split; cbn [filter map]; constructor.
 Qed.
 
 Lemma tcons_reachable limit thrs s : limit_ok limit -> Forall t_fresh thrs -> t_reachable limit thrs s -> tcons s.
@@ -209,20 +363,21 @@ Proof.
   intros a b H. injection H as H _. exact H.
 Qed.
 
-(* conservation for every schedule: what the producers have pushed so far (each producer's first k values, tagged) is,
-   as a multiset with every element exactly once, what the pops have received + what is in flight between a critical
-   section and the resolution of the taken promise + what is queued + what blocked pushes hold *)
+(* conservation for every schedule: what the producers have pushed so far (each producer's first k values, tagged, hence
+   pairwise distinct) is, as a multiset, what the pops have received + what is in flight between a critical section and
+   the resolution of the taken promise + what is queued + what blocked pushes hold + what unblock_push withdrew + what was
+   destroyed with the queue; items and waiting consumers are never both present *)
 Theorem tq_conservation limit thrs s : limit_ok limit -> Forall t_fresh thrs -> t_reachable limit thrs s ->
   NoDup (t_plog s) /\
   Permutation (t_plog s)
-    (map snd (ritems (t_rlog s)) ++ map snd (iitems (t_infl s)) ++ t_items s ++ map fst (t_blocked s)) /\
+    (map snd (ritems (t_rlog s)) ++ map snd (iitems (t_infl s)) ++ t_items s ++ map fst (t_blocked s) ++ t_wlog s ++ t_dlog s) /\
   (forall p, filter (of_p p) (t_plog s) = expected_plog p (nth_error (t_thr s) p)) /\
   (t_items s = [] \/ t_waiters s = []).
 Proof.
-  intros L F R. destruct (tcons_reachable _ _ _ L F R) as [_ B1 B2 J1 J2 J5]. repeat split.
+  intros L F R. destruct (tcons_reachable _ _ _ L F R) as [_ B1 B2 J1 J2 J5 _]. repeat split.
   - apply NoDup_by_producer. intros p. rewrite J5. destruct (nth_error (t_thr s) p) as [[]|]; cbn [expected_plog]; try constructor.
     apply p_items_NoDup.
-  - rewrite J1. rewrite (app_assoc (map snd (ritems (t_rlog s)))). apply Permutation_app_tail.
+  - rewrite J1. unfold t_chain. rewrite <- !app_assoc. rewrite (app_assoc (map snd (ritems (t_rlog s)))). apply Permutation_app_tail.
     rewrite <- map_app. apply Permutation_map. exact J2.
   - exact J5.
   - destruct (t_waiters s); [right; reflexivity|left]. apply B2. discriminate.
